@@ -396,6 +396,7 @@ pub fn run(ctx: &Ctx) -> Report {
      each file through show / show --json / --terminal show / link / verify (3 forms) / dump / stats / announce, by path and on stdin; argument strings for byte size, host:port, sort spec, glob, URL and magnet, and argument vectors that are not valid UTF-8 in every value, subcommand and flag position; \
      non-trivial = any file other than a plainly accepted one, any argument case; distinct by content hash",
   );
+  report.rule.push_str("; fixed argument vectors (digits outside ASCII where a port goes, topics of other lengths, `--color` in last place, torrents with `[` as a node host, an empty path list, piece length 0, fewer digests than pieces, one ordinary entry beside one of 300 000 components, non-torrent files for stats) and commands started in a working directory that no longer exists");
   report.correspondences.push("C08.utf8: Imdlv.Peer.isUtf8 (RFC 3629 validator of the model) = std::str::from_utf8 acceptance".into());
   report.correspondences.push("C08.load: acceptance by `imdl torrent show --json` = Imdlv.Load.loadTorrent (typed reader + generic decoder + validations), on the domain the model claims".into());
   let mut rng = Rng::new(ctx.seed).fork(0xC08);
